@@ -11,19 +11,23 @@ CONSTANTS Depth, Keep, PersistFee
 VARIABLES cfg, s, hist, w
 
 Cases == JsonDeserialize(IOEnv.VEL_CASES)
-Levels == IOEnv.VEL_LEVELS          \* "node" | "all"
-ParamsOf(c) == [level |-> c.level, pay |-> c.pay, fee |-> c.fee, keep |-> Keep, persistFee |-> PersistFee]
+Levels == IOEnv.VEL_LEVELS          \* "node" | "all" | "retry" (only the cases with named payment hashes)
+ParamsOf(c) == [level |-> c.level, pay |-> c.pay, fee |-> c.fee, keep |-> Keep, persistFee |-> PersistFee,
+                ns |-> c.ns]
 
 Ops(c)  == {c.reqs[i].op : i \in DOMAIN c.reqs}
 AmtsOf(c, op) == {c.reqs[i].a : i \in {j \in DOMAIN c.reqs : c.reqs[j].op = op}}
 CtlOf(c, op)  == IF op \in FeeOps THEN c.fee ELSE c.pay
-ReqsOf(c) == UNION {{Req(op, dt, a) : dt \in AllDts(CtlOf(c, op)), a \in AmtsOf(c, op)} : op \in Ops(c) \ {"Restart"}}
+HsOf(c, op)   == {c.reqs[i].h : i \in {j \in DOMAIN c.reqs : c.reqs[j].op = op}}
+ReqsOf(c) == UNION {{ReqH(op, dt, a, h) : dt \in AllDts(CtlOf(c, op)), a \in AmtsOf(c, op), h \in HsOf(c, op)}
+                     : op \in Ops(c) \ {"Restart"}}
 
 Weight(c, st, r) == IF r.op = "Restart" THEN 12
                     ELSE LET o == Step(st, r, ParamsOf(c)) IN
                          IF o.resp.ok /\ r.a > 0 THEN 3 ELSE 1
 
-Init == /\ cfg \in {i \in DOMAIN Cases : Levels = "all" \/ Cases[i].level = Levels}
+Init == /\ cfg \in {i \in DOMAIN Cases : \/ Levels = "all" \/ Cases[i].level = Levels
+                                       \/ (Levels = "retry" /\ Cases[i].ns > 0)}
         /\ s = InitState(ParamsOf(Cases[cfg]))
         /\ hist = <<>>
         /\ w = 0
